@@ -108,6 +108,8 @@ func Run(c *hx.Ctx) {
 			h2upCases(c)
 		case "h2set":
 			h2setCases(c)
+		case "h2trail":
+			h2trailCases(c)
 		case "hpackx":
 			hpackxCases(c)
 		case "disp":
@@ -226,6 +228,8 @@ func Run(c *hx.Ctx) {
 	dispCases(c)
 	// the decode loops of the real HTTP/2 server / client Dispatch under a Decode-call recorder and a watchdog
 	h2dispCases(c)
+	// [c08l9] a second HEADERS frame (trailers) on a stream in flight: every short sequence by name, stream layer observed
+	h2trailCases(c)
 	// the HTTP/1 read path: real server / client stream connection (Dispatch pipe + serve goroutine) on malformed input
 	h1dispCases(c)
 	// dubbo service-aware metadata walk: hessian2 fields of unexpected types at each position
